@@ -18,6 +18,7 @@ RULE = ('token strings: (a) every string over the %d-token alphabet up to length
         % (len(gram.ALPHA), len(gram.ALPHA_SMALL)))
 RULE += ' One grammar-derived case in eight is preceded by an arbitrary earlier call on the long-lived parser (failed parses, abandoned/suspended list_names, failing evals, names=None evals); one in five goes through a caching parser together with two sibling texts that differ only inside their string literals (with # in them).'
 RULE += ' String literals include ones spelled like keyword constants and numbers ("True", \'None\', "12") and ones holding the characters str.splitlines() breaks at (FF, VT, FS, NEL, U+2028, U+2029).'
+RULE += ' On the caching parser, texts are also submitted through eval() as instances of a str subclass whose == ignores case (the text, its case-swapped sibling, the text again): the tree eval evaluates must be the tree of that text.'
 ASSUMPTIONS = [
     'R1 (lib/refparser.py) is the reading of "the published grammar and operator table": declared levels/associativity, '
     'yacc shift/reduce rule, greedy lambda bodies and conditional branches, the 8 slice forms, index-only assignment targets',
@@ -95,6 +96,41 @@ def impl_parse(ctx, text, cached=False):
     return ('ok', treeconv.norm(treeconv.conv(t)))
 
 
+class CIText(str):
+    """a source text that is a str subclass with an equality of its own (case-insensitive, as a host's rule-id or label type may have)"""
+    def __eq__(self, other):
+        return isinstance(other, str) and str.lower(self) == str.lower(other)
+
+    def __ne__(self, other):
+        return not self.__eq__(other)
+
+    def __hash__(self):
+        return hash(str.lower(self))
+
+
+def eval_tree(ctx, text):
+    """the tree that eval() of this text evaluates on the caching parser (captured where eval obtains it), in neutral form"""
+    P = ctx.PC
+    seen = []
+    orig = P.parse
+
+    def spy(expr):
+        t = orig(expr)
+        seen.append(t)
+        return t
+    P.parse = spy
+    try:
+        P.eval(text, {}, None, 1)
+    except Exception as e:
+        if not seen:
+            return ('rej', type(e).__name__)
+    finally:
+        del P.parse
+    if not seen or seen[0] is None:
+        return ('none', None)
+    return ('ok', treeconv.norm(treeconv.conv(seen[0])))
+
+
 def ref_parse(toks, quirks=()):
     try:
         return ('ok', treeconv.norm(refparser.ref_parse(toks, quirks)))
@@ -157,6 +193,26 @@ def run_case(case, ctx):
                 ctx.violation('a text parsed on a caching parser after a sibling text (same up to the contents of a string literal) gets the wrong tree', case,
                               detail={'text': tx, 'impl': str(i2[1])[:400], 'ref': str(r2[1])[:400]})
                 return
+    if cached and same(i, r) and r[0] == 'ok' and seed % 2 == 0:
+        # through eval(), with texts that are instances of a str subclass whose == ignores case: the tree evaluated is the tree of THAT text
+        from lib import reflex
+        for tx in (text, text.swapcase(), text):
+            try:
+                rx = ref_parse([(t[0], t[1]) for t in reflex.tokens(tx.rstrip())])
+            except reflex.LexError:
+                rx = ('rej', 'lexical')
+            if rx[0] == 'skip':
+                continue
+            ix = eval_tree(ctx, CIText(tx))
+            ctx.count('trees_evaluated_by_eval_compared(str-subclass texts)')
+            if ix[0] == 'none' and rx[0] == 'ok':
+                continue        # an empty program: eval has nothing to evaluate
+            if not same(ix, rx):
+                known = any(same(ix, ref_parse([(t[0], t[1]) for t in reflex.tokens(tx.rstrip())], (q,))) for q in ('paren1',))
+                if not known:
+                    ctx.violation('eval() of a text (a str subclass instance) on a caching parser evaluates a tree that is not the tree of that text', case,
+                                  detail={'text': tx, 'impl': str(ix[1])[:400], 'ref': str(rx[1])[:400]})
+                    return
     if same(i, r):
         return
     # disagreement: which single mechanism (if any) explains it?
